@@ -29,6 +29,8 @@ func c11Layouts() []c11Layout {
 		{"sensors-first", []NodeSpec{{1, network.BiasNeuron, 17, 1}, {2, network.InputNeuron, 17, 0}, {3, network.HiddenNeuron, 11, 1}, {4, network.OutputNeuron, act, 0}}},
 		{"late-sensors", []NodeSpec{{1, network.InputNeuron, 17, 1}, {2, network.OutputNeuron, act, 0}, {3, network.HiddenNeuron, 14, 1}, {4, network.InputNeuron, 17, 0}, {5, network.BiasNeuron, 17, 1}}},
 		{"two-outputs", []NodeSpec{{1, network.InputNeuron, 17, 1}, {2, network.BiasNeuron, 17, 0}, {3, network.OutputNeuron, act, 1}, {4, network.OutputNeuron, 13, 0}, {5, network.HiddenNeuron, act, 0}}},
+		// node list NOT in ascending id order (legal for the constructors and readers)
+		{"unordered-ids", []NodeSpec{{7, network.OutputNeuron, act, 0}, {2, network.InputNeuron, 17, 1}, {5, network.HiddenNeuron, 11, 1}, {1, network.BiasNeuron, 17, 0}}},
 	}
 }
 
